@@ -147,10 +147,12 @@ theorem lookup_returns_requested_view :
 
 /-! ### Soundness of the `accept-bind` acceptor -/
 
-/-- The register found in place of a virtual one is a view of the file that is not reserved, and a high-byte view
-sits on one of the registers 0..3. -/
+/-- The register found in place of a virtual one is a view of the file that is not reserved — it is a row of the
+virtual register's own class that does not carry the `Restricted` flag, AND it is not the stack pointer or K0 by the
+hardware numbering of its id (whatever the flags say) — and a high-byte view sits on one of the registers 0..3. -/
 def Unreserved (tbl : List RegRow) (o b : R) : Prop :=
   idIsVirtual o.id = true → ∃ row ∈ tbl, b = ⟨row.id, row.mask⟩ ∧ row.info &&& infoRestricted = 0 ∧
+    row.kind = idKind o.id ∧ isSPorK0 b.id = false ∧
     (o.mask = S8H → idIndex b.id < 4)
 
 /-- **`accept-bind` is sound**: a pair the acceptor lets through satisfies the statement `BoundOK` (physical;
@@ -187,8 +189,10 @@ theorem checkBindOne_sound (tbl : List RegRow) (al : List (Nat × Nat)) (o b : R
         · simp [h4] at h
         by_cases h5 : (row.info &&& infoRestricted != 0) = true
         · simp [h4, h5] at h
+        by_cases h7 : isSPorK0 p = true
+        · simp [h4, h5, h7] at h
         by_cases h6 : (o.mask == S8H && decide (idIndex p ≥ 4)) = true
-        · simp [h4, h5, h6] at h
+        · simp [h4, h5, h7, h6] at h
         have e1 : b.id = p := by simpa using h1
         have e2 : b.mask = o.mask := by simpa using h2
         have e3 : idKind p = idKind o.id := by simpa using h3
@@ -206,7 +210,7 @@ theorem checkBindOne_sound (tbl : List RegRow) (al : List (Nat × Nat)) (o b : R
           simp only at e1 e2
           simp [e1, e2, e4, hprop.2]
         refine ⟨⟨hb', fun h0 => by simp [ho] at h0, fun _ => ⟨p, row, hf, hmem, hbrow, e4, hprop.2, hprop.1.1, e3⟩⟩,
-          fun _ => ⟨row, hmem, hbrow, e5, fun h8 => ?_⟩⟩
+          fun _ => ⟨row, hmem, hbrow, e5, hprop.1.1.trans e3, by rw [e1]; simpa using h7, fun h8 => ?_⟩⟩
         rw [e1]
         simp only [Bool.and_eq_true, beq_iff_eq, decide_eq_true_eq, not_and, Nat.not_le] at h6
         exact h6 h8
@@ -228,13 +232,40 @@ theorem checkBind_sound (tbl : List RegRow) (al : List (Nat × Nat)) (pairs : Li
   exact checkBindOne_sound tbl al p.1 p.2 (h p hp)
 
 /-- Non-vacuity of `checkBind_sound`, and the acceptor rejects what it should: v ↦ RCX read as CH is accepted;
-v left virtual, v ↦ RSI read as 8H, v ↦ RSP, a changed author-chosen register and a changed width are rejected. -/
+v left virtual, v ↦ RSI read as 8H, v ↦ RSP, a changed author-chosen register and a changed width are rejected.
+(Author-written SP / K0 next to virtual registers: see `spCopy…` / `k0Copy…` below.) -/
 example : checkBind Avo.Gen.regs [(257, 65792)] [(⟨257, 2⟩, ⟨65792, 2⟩), (⟨256, 15⟩, ⟨256, 15⟩)] = none ∧
     (checkBind Avo.Gen.regs [(257, 65792)] [(⟨257, 2⟩, ⟨257, 2⟩)]).isSome ∧
     (checkBind Avo.Gen.regs [(257, 393472)] [(⟨257, 2⟩, ⟨393472, 2⟩)]).isSome ∧
     (checkBind Avo.Gen.regs [(257, 262400)] [(⟨257, 15⟩, ⟨262400, 15⟩)]).isSome ∧
     (checkBind Avo.Gen.regs [] [(⟨256, 15⟩, ⟨65792, 15⟩)]).isSome ∧
     (checkBind Avo.Gen.regs [(257, 65792)] [(⟨257, 2⟩, ⟨65792, 1⟩)]).isSome := by
+  decide +kernel
+
+/-! ### Author-written restricted registers next to virtual registers
+
+`MOVQ SP, v; ANDQ $-64, v; MOVQ v, y+0(FP)` (the "aligned scratch pointer" idiom: the author names the physical stack
+pointer, a virtual register is a copy of it) and `KMOVQ K0, k; KNOTQ k, k; KMOVQ k, (mem)`. -/
+
+/-- (register before, register after binding) for the operands of the SP idiom when the copy is bound to id `p` -/
+def spCopyPairs (p : Nat) : List (R × R) :=
+  [(⟨262400, 15⟩, ⟨262400, 15⟩), (⟨257, 15⟩, ⟨p, 15⟩), (⟨257, 15⟩, ⟨p, 15⟩), (⟨257, 15⟩, ⟨p, 15⟩)]
+
+/-- … and of the K0 idiom (virtual opmask 769, K0 = 768, K1 = 66304) -/
+def k0CopyPairs (p : Nat) : List (R × R) :=
+  [(⟨768, 15⟩, ⟨768, 15⟩), (⟨769, 15⟩, ⟨p, 15⟩), (⟨769, 15⟩, ⟨p, 15⟩), (⟨769, 15⟩, ⟨p, 15⟩), (⟨769, 15⟩, ⟨p, 15⟩)]
+
+/-- The acceptor on these functions: the author's SP / K0 left as written and the copy in RAX / K1 is accepted; the
+copy bound to the stack pointer (in any of its views: 64, 32, 16, 8 bits) or to K0 is rejected — and it is still
+rejected on a register file in which NO row carries the `Restricted` flag (clause `isSPorK0`: hardware numbering). -/
+example : checkBind Avo.Gen.regs [(257, 256)] (spCopyPairs 256) = none ∧
+    checkBind Avo.Gen.regs [(769, 66304)] (k0CopyPairs 66304) = none ∧
+    (checkBind Avo.Gen.regs [(257, 262400)] (spCopyPairs 262400)).isSome ∧
+    (checkBind Avo.Gen.regs [(769, 768)] (k0CopyPairs 768)).isSome ∧
+    [1, 3, 7, 15].all (fun m => (checkBind Avo.Gen.regs [(257, 262400)] [(⟨262400, m⟩, ⟨262400, m⟩), (⟨257, m⟩, ⟨262400, m⟩)]).isSome) ∧
+    (checkBind (Avo.Gen.regs.map (fun r => { r with info := 0 })) [(257, 262400)] (spCopyPairs 262400)).isSome ∧
+    (checkBind (Avo.Gen.regs.map (fun r => { r with info := 0 })) [(769, 768)] (k0CopyPairs 768)).isSome ∧
+    checkBind (Avo.Gen.regs.map (fun r => { r with info := 0 })) [(257, 256)] (spCopyPairs 256) = none := by
   decide +kernel
 
 /-- Non-vacuity of `bindReg_ok`: virtual GP 0 viewed as 8H, allocated to RCX, binds to CH. -/
